@@ -205,7 +205,9 @@ Proof.
 Qed.
 Lemma payload_ok_ext g : payload_ok K stranded mode idf colf g -> payload_ok K stranded mode idf colf' g.
 Proof.
-  intros H n Hn. destruct (H n Hn) as [H1 H2]. split; [exact H1|]. intros Hm k Hk. rewrite <- Hcol. now apply H2.
+  intros H n Hn. destruct (H n Hn) as [H1 [H2 H3]]. split; [exact H1|]. split.
+  - intros Hm k Hk. rewrite <- Hcol. now apply H2.
+  - intros Hm. destruct (H3 Hm) as [k [Hk Hc]]. exists k. split; [exact Hk|]. now rewrite <- Hcol.
 Qed.
 End Ext.
 
